@@ -30,6 +30,11 @@ def injections(rng, toks, defs, tier):
     out.append(("missing-file-no-extension", None, {"main.circom": base}, ["main.circom", "nonexistent"]))
     out.append(("missing-file-other-extension", None, {}, ["nonexistent.txt"]))
     out.append(("dangling-symlink", None, {"main.circom": base, "@symlink:dangling.circom": "nowhere.circom"}, ["main.circom", "dangling.circom"]))
+    # an existing file that is named explicitly but does not have the extension `.circom` (audit C02 f1, f4): it is an input like any other
+    broken_text = "pragma circom 2.0.0;\ntemplate Broken( { signal input a; }\n"
+    for odd in ("broken.txt", "broken.circom.bak", "BROKEN.CIRCOM", "noextension", ".circom"):
+        out.append(("named-file-other-extension %s" % odd, None, {odd: broken_text}, [odd]))
+        out.append(("named-file-other-extension-next-to-valid %s" % odd, None, {"main.circom": base, odd: broken_text}, ["main.circom", odd]))
     out.append(("bad-pragma-major", None, {"main.circom": base.replace("2.0.0", "3.0.0", 1)}, ["main.circom"]))
     out.append(("bad-pragma-minor", None, {"main.circom": base.replace("2.0.0", "2.9.9", 1)}, ["main.circom"]))
     positions = list(range(1, len(toks)))
